@@ -193,8 +193,8 @@ def run(ctx):
     ctx.oblige("corr:anonLeafOK-holds-on-real-trees(hypothesis of named_child_spec)", anon_hyp_bad == 0, "%d trees" % anon_hyp_bad)
     ctx.oblige("corr:StackOK-linkage-holds-on-every-cursor-stack(hypothesis of cursor_next_sibling_spec)", stack_bad == 0, "%d stacks" % stack_bad)
     ctx.oblige("corr:hiddenExtraOK-holds-on-real-trees(hypothesis of field_name_for_child_spec)", hidden_extra_bad == 0, "%d trees" % hidden_extra_bad)
-    ctx.oblige("corr:parent_spec-hypotheses-hold-on-every-non-empty-node-of-real-trees(pathOK: slot ids distinct along the search, "
-               "ancestors report visible children; and ported ts_node_parent = parentOnPath)", par["parbad"] == 0 and (par["parchk"] > 0 or evals == 0 or bool(ctx.replay)),
+    ctx.oblige("corr:parent_spec-hypotheses-hold-on-every-non-empty-node-of-real-trees(pathOK: slot ids distinct along the search; "
+               "and ported ts_node_parent = parentOnPath)", par["parbad"] == 0 and (par["parchk"] > 0 or evals == 0 or bool(ctx.replay)),
                "%d nodes checked, %d zero-width nodes excluded by the hypothesis, %d bad %s" % (par["parchk"], par["parzw"], par["parbad"], "; ".join(par_bad_cases)))
     ctx.oblige("corr:parentOnPath=parent-in-the-flattened-tree(on every node checked)", par["parflat"] == 0, "%d differ %s" % (par["parflat"], "; ".join(par_bad_cases)))
     ctx.oblige("corr:next_sibling_spec-conclusion-holds-wherever-its-hypotheses-hold(non-empty node, nsPathOK: no zero-width raw node follows "
